@@ -87,4 +87,3 @@ func vfParseTLVs(b []byte) ([]vfTLV, error) {
 	}
 	return out, nil
 }
-
